@@ -1,6 +1,11 @@
 #![allow(dead_code, unused_mut)]
+mod c01;
 mod c11;
 mod common;
+mod explore;
+mod monitor;
+mod scen;
+mod sim;
 mod selftest;
 
 use common::*;
@@ -37,6 +42,7 @@ fn main() {
             let seed = std::env::var("VERIF_SEED").ok().and_then(|s| s.parse().ok()).unwrap_or(0u64);
             let ctx = Ctx { prop: args[2].clone(), tier, seed, start: Instant::now() };
             let out = match args[2].as_str() {
+                "C01" => c01::run(&ctx),
                 "C11" => c11::run(&ctx),
                 _ => {
                     eprintln!("unknown property {}", args[2]);
@@ -55,6 +61,8 @@ fn main() {
             println!("replaying {} (property {}, rule {})", h, v["property"], v["rule"]);
             let violated = if h.starts_with("c11.") {
                 c11::replay(&v)
+            } else if h == "c01.t1" {
+                c01::replay_c01(&v)
             } else {
                 eprintln!("unknown harness {}", h);
                 std::process::exit(2);
